@@ -24,7 +24,10 @@ public:
         auto r = FirFilter::conv(x, _h);
         int nd = _h.size() - 1;
         int nx = x.size();
-        _d = x.slice((nx - nd), nx);
+        //a one-tap filter keeps no history (and a slice may not start at the end of the array)
+        if (nd > 0) {
+            _d = x.slice((nx - nd), nx);
+        }
         return r;
     }
 
